@@ -27,17 +27,45 @@ CTORS = ['petl.transform.conversions:FieldConvertView.__init__', 'petl.transform
          'petl.transform.maps:RowMapView.__init__', 'petl.transform.maps:RowMapManyView.__init__']
 
 
+def _policy_name(ctx, fn):
+    """name under which the failonerror policy arrives in an iterator function: the parameter that the delegating view
+    binds to self.failonerror (private parameters may be called anything), else `failonerror`"""
+    top = fn
+    while top.parent is not None:
+        top = top.parent
+    for v in ctx.views.real_views():
+        for f, call in v.iter_targets:
+            if f is not top:
+                continue
+            params = list(f.posparams)
+            for i, a in enumerate(call.args):
+                if i < len(params) and norm(a) == 'self.failonerror':
+                    return params[i]
+            for k in call.keywords:
+                if k.arg and norm(k.value) == 'self.failonerror':
+                    return k.arg
+    return 'failonerror'
+
+
+def _policies(name):
+    return {
+        'False': {"%s == 'inline'" % name: False, name: False},
+        'True': {"%s == 'inline'" % name: False, name: True},
+        'inline': {"%s == 'inline'" % name: True, name: True},
+    }
+
+
 def _uses_name(node, name):
     return any(isinstance(n, ast.Name) and n.id == name for n in ast.walk(node))
 
 
-def _handler_sites(fn):
+def _handler_sites(fn, pname='failonerror'):
     """(try node, handler) pairs whose handler catches Exception and tests failonerror."""
     out = []
     for n in own_nodes(fn.node):
         if isinstance(n, ast.Try):
             for h in n.handlers:
-                if handler_types(h) & {'Exception', 'BaseException'} and _uses_name(h, 'failonerror'):
+                if handler_types(h) & {'Exception', 'BaseException'} and _uses_name(h, pname):
                     out.append((n, h))
     return out
 
@@ -96,7 +124,8 @@ def run(ctx):
                 targets.append((fn, 'row'))
     n_sites = 0
     for fn, kind in targets:
-        sites = _handler_sites(fn)
+        pname = _policy_name(ctx, fn) if not fn.module.name.startswith('petl._controls') else 'failonerror'
+        sites = _handler_sites(fn, pname)
         real = not fn.module.name.startswith('petl._controls')
         if not sites:
             if real:
@@ -106,25 +135,25 @@ def run(ctx):
         for tr, h in sites:
             if real:
                 n_sites += 1
-            _check_handler(rep, fn, kind, tr, h)
-            _check_try_scope(ctx, rep, fn, tr)
+            _check_handler(rep, fn, kind, tr, h, pname)
+            _check_try_scope(ctx, rep, fn, tr, pname)
     ctx.floor('handler_sites', n_sites, 4)
     r192(ctx, rep)
     r193(ctx, rep)
 
 
-def _check_handler(rep, fn, kind, tr, h):
+def _check_handler(rep, fn, kind, tr, h, pname='failonerror'):
     exc = h.name
     atoms = set()
     for n in ast.walk(h):
         if isinstance(n, ast.If):
             atoms |= set(atoms_of(n.test))
-    unknown = atoms - {"failonerror == 'inline'", 'failonerror'}
+    unknown = atoms - {"%s == 'inline'" % pname, pname}
     if unknown:
         rep.undecided('R19.1', fn, 'except Exception', 'handler tests %s' % sorted(unknown), h)
         return
     want = {'False': 'errorvalue' if kind == 'cell' else 'drop', 'True': 'raise', 'inline': 'deliver-exception'}
-    for pol, val in POLICIES.items():
+    for pol, val in _policies(pname).items():
         try:
             oc = simulate(h.body, val)
         except Unsupported as e:
@@ -140,7 +169,7 @@ def _check_handler(rep, fn, kind, tr, h):
                             want[pol]), h)
 
 
-def _check_try_scope(ctx, rep, fn, tr):
+def _check_try_scope(ctx, rep, fn, tr, pname='failonerror'):
     """The user callable is invoked inside the try, and so is every consumer of
     its result (tuple(...), iteration): a lazy result fails when consumed."""
     pm = parent_map(fn.node)
@@ -164,7 +193,7 @@ def _check_try_scope(ctx, rep, fn, tr):
         return
     # the policy handler is the only one that deals with what the user callable raises
     for h in tr.handlers:
-        if handler_types(h) & {'Exception', 'BaseException'} and _uses_name(h, 'failonerror'):
+        if handler_types(h) & {'Exception', 'BaseException'} and _uses_name(h, pname):
             break           # handlers after the policy handler are unreachable for Exception subclasses
         reraises = any(isinstance(x, ast.Raise) and x.exc is None for b in h.body for x in ast.walk(b))
         if not reraises:
